@@ -90,14 +90,14 @@ def report(pid, tier, seed, modname, obs, results, bres, meta, t0):
     samples = []
     functions = set()
     gaps = []
-    val_points = val_compared = 0
+    val_points = val_compared = hp_checked = 0
     n_paths = 0
     smt_q = 0; smt_t = 0.0
     for r in results:
         for f in r.get('functions', []): functions.add(f)
         n_paths += r.get('n_paths', 0)
         v = r.get('validation') or {}
-        val_points += v.get('points', 0); val_compared += v.get('compared', 0)
+        val_points += v.get('points', 0); val_compared += v.get('compared', 0); hp_checked += v.get('hp_checked', 0)
         smt_q += (r.get('smt') or {}).get('queries', 0); smt_t += (r.get('smt') or {}).get('time', 0.0)
         rec = dict(obligation=r['name'], status=r['status'], paths=r.get('n_paths'), infeasible_paths=r.get('infeasible'),
                    clauses=r.get('verdicts'), ms=int(1000 * r.get('wall', 0)), mode='nf+z3', functions=r.get('functions'))
@@ -116,7 +116,7 @@ def report(pid, tier, seed, modname, obs, results, bres, meta, t0):
         samples.append(rec)
         verd = r.get('verdicts') or {}
         if r['status'] in ('crash', 'engine-mismatch', 'vacuous'):
-            why = r.get('why') or json.dumps(r.get('validation', {}).get('mismatches'))[:1500]
+            why = r.get('why') or json.dumps([r.get('validation', {}).get('mismatches'), r.get('validation', {}).get('hp_mismatches')])[:1500]
             crashes.append((r['name'], f"{r['status']}: {why}"))
             continue
         if r['status'] == 'gap' or r.get('gaps'):
@@ -195,6 +195,7 @@ def report(pid, tier, seed, modname, obs, results, bres, meta, t0):
             functions_under_contract=sorted(functions),
             paths_explored=n_paths,
             model_validation_points=val_points, model_validation_values_compared=val_compared,
+            identities_rechecked_in_60_digit_arithmetic=hp_checked,
             canaries=canaries,
             backends=dict(nf='in-house exact normal form modulo relation ideal (decides identities)',
                           z3=f'z3 {z3_version()}: path feasibility, side conditions, inequalities; {smt_q} queries, {smt_t:.1f}s'),
